@@ -145,6 +145,14 @@ def _base_classes(a, n, as_int, as_list):
     return cls
 
 
+def _magnitude_class(a):
+    nz = [abs(float(v)) for v in a if v != 0]
+    if not nz:
+        return "all-zero"
+    r = max(nz) / min(nz)
+    return "range>=1e9" if r >= 1e9 else "range<1e9"
+
+
 def _nontrivial_oversample(a, n):
     return n >= 2 and not is_uniform([float(v) for v in a])
 
@@ -595,9 +603,13 @@ def integral_body(ctx, case):
     m = len(x)
     xf = [float(v) for v in x]
     yf = [float(v) for v in y]
-    rect = [(yf[i] * (xf[i + 1] - xf[i]), RTOL * abs(yf[i]) * (xf[i + 1] - xf[i])) for i in range(m - 1)]
-    trap = [((yf[i] + yf[i + 1]) / 2 * (xf[i + 1] - xf[i]),
-             RTOL * (abs(yf[i]) + abs(yf[i + 1])) * (xf[i + 1] - xf[i])) for i in range(m - 1)]
+    # exact rational values; tolerances in ulps of each element's own magnitude (rectangle: one rounded difference and
+    # one rounded product; trapezoid: one more rounded sum) - nothing global enters
+    xq = [Fraction(v) for v in xf]
+    yq = [Fraction(v) for v in yf]
+    rect = [(yq[i] * (xq[i + 1] - xq[i]), _ulp_tol(2, abs(yf[i]) * (xf[i + 1] - xf[i]))) for i in range(m - 1)]
+    trap = [((yq[i] + yq[i + 1]) / 2 * (xq[i + 1] - xq[i]),
+             _ulp_tol(3, (abs(yf[i]) + abs(yf[i + 1])) / 2 * (xf[i + 1] - xf[i]))) for i in range(m - 1)]
 
     def args():
         return _arg(x, case["xint"], False), _arg(y, case["yint"], False)
@@ -611,17 +623,23 @@ def integral_body(ctx, case):
         _compare(name, _vec(res, name, m - 1), want)
     # range sums over the values y (any array-like) and over the elementary trapezoid integrals
     idx = case["indices"]
-    for label, vals in (("y", yf), ("trapezoid", [w for w, _ in trap])):
+    for label, vals in (("y", yf), ("trapezoid", [float(w) for w, _ in trap])):
         src = list(vals) if case["sum_as_list"] else np.array(vals, dtype=float)
         ind = list(idx) if case["sum_as_list"] else np.array(idx, dtype=np.int64)
         got = _vec(sau.sum_over_indices(src, ind), f"sum_over_indices({label})", len(idx) - 1)
-        want = [(math.fsum(vals[s:e]), RTOL * math.fsum(abs(v) for v in vals[s:e])) for s, e in zip(idx[:-1], idx[1:])]
+        want = []
+        for s, e in zip(idx[:-1], idx[1:]):
+            part = vals[s:e]
+            if len(part) <= 1:          # empty range: 0; single element: that element, unchanged
+                want.append((part[0] if part else 0.0, None))
+            else:                       # tolerance from the range's own magnitude only
+                want.append((sum(Fraction(v) for v in part), _ulp_tol(len(part), math.fsum(abs(v) for v in part))))
         _compare(f"sum_over_indices({label}, {idx})", got, want)
     cls = {"len=1" if m == 1 else "len=2" if m == 2 else "len=3..10" if m <= 10 else "len=11..50",
            "x-int64" if case["xint"] else "x-float64", "y-int64" if case["yint"] else "y-float64",
            "x-uniform" if is_uniform(xf) else "x-non-uniform",
            "empty-range" if any(s == e for s, e in zip(idx[:-1], idx[1:])) else "no-empty-range",
-           "sum:list" if case["sum_as_list"] else "sum:ndarray"}
+           "sum:list" if case["sum_as_list"] else "sum:ndarray", "y:" + _magnitude_class(y)}
     ctx.record(case, cls, m >= 3 and (not is_uniform(xf) or not is_uniform(yf)))
 
 
@@ -635,7 +653,7 @@ def average_case(draw, ctx):
     else:
         m = draw(_length(1, 50))
     xd = draw(_values(m, increasing=True))
-    yd = draw(_values(m))
+    yd = draw(_values(m, block=draw(st.sampled_from([n, n, None]))))
     return dict(x=xd["a"], y=yd["a"], xint=xd["int"], yint=yd["int"], xkind=xd["kind"], ykind=yd["kind"], n=n,
                 as_list=draw(st.sampled_from(_ONE_IN_FOUR)))
 
@@ -661,6 +679,7 @@ def average_body(ctx, case):
     cls.add("x-int64" if case["xint"] else "x-float64")
     if m < n:
         cls.add("len<n")
+    cls.add("y:" + _magnitude_class(y))
     ctx.record(case, cls, m % n != 0 or _nontrivial_oversample(y, n))
 
 
@@ -686,11 +705,14 @@ def roundtrip_body(ctx, case):
     gx = _vec(rx, "round trip x", m)
     gy = _vec(ry, "round trip y", m)
     _compare(f"average(oversample_linspace(x, {n}), ..)[0]", gx, [(float(v), None) for v in x])
+    # every full row holds n copies of one value v: its mean is v up to the rounding of that row's own sum
+    # (n * 2**-53 * |v|, nothing from other rows); the last row holds v alone and must return it unchanged
     _compare(f"average(.., oversample_piecewise_constant(y, {n}), {n})[1]", gy,
-             [(float(v), RTOL * abs(float(v))) for v in y])
+             [(float(v), None if n == 1 or k == m - 1 else _ulp_tol(n, abs(float(v)))) for k, v in enumerate(y)])
     cls = _base_classes(y, n, case["yint"], case["as_list"])
     cls.add("x-int64" if case["xint"] else "x-float64")
     cls.add("x-uniform" if is_uniform([float(v) for v in x]) else "x-non-uniform")
+    cls.add("y:" + _magnitude_class(y))
     ctx.record(case, cls, ((m - 1) * n + 1) % n != 0 or _nontrivial_oversample(y, n))
 
 
@@ -741,6 +763,140 @@ def methods_body(ctx, case):
     ctx.record(case, cls, len(a) % n != 0 or _nontrivial_oversample(a, max(n, num)))
 
 
+# ---- 12. histories on one IntervalArray object -----------------------------------------------------------------
+
+_HISTORY_OPS = ["set-pair", "set-pair", "set-pair", "set-flat", "set-flat", "to_2d", "to_2d", "to_2d", "closed",
+                "closed", "get-pair", "get-pair", "get-flat", "len", "len", "nfull", "nfull", "iter", "array",
+                "extend_linspace", "extend_linspace", "extend_constant", "extend_constant"]
+_VIEWS = ("to_2d", "closed", "get-pair", "get-flat", "iter", "array", "len", "nfull")
+
+
+@st.composite
+def history_case(draw, ctx):
+    """3..12 operations on one object; indices are drawn against the length the model has at that step"""
+    n = draw(_nval(1, 16))
+    d = draw(_array(1, 30))
+    m = len(d["a"])
+    steps = []
+    for _ in range(draw(st.sampled_from(range(3, 13)))):
+        kind = draw(st.sampled_from(_HISTORY_OPS))
+        if kind == "extend_linspace" and m <= n:        # documented mirror point needs len > n
+            kind = "extend_constant"
+        if kind.startswith("extend") and m + 2 * n > 120:
+            kind = "to_2d"
+        op = dict(op=kind)
+        if kind in ("get-pair", "set-pair", "get-flat", "set-flat"):
+            flat = draw(st.sampled_from(range(m)))
+            if kind.endswith("pair"):
+                op["i"], op["j"] = flat // n, flat % n
+            else:
+                op["k"] = flat
+            if kind.startswith("set"):
+                # ints are valid for int64 and float arrays alike (the array turns float after extend_linspace)
+                op["value"] = draw(st.sampled_from([0, 0, 1, -1, 7, 99, -35])) if d["int"] else draw(
+                    st.one_of(st.sampled_from([0.0, -0.0, 0.1, 1e12, -2.5]), fl(-1e3, 1e3)))
+        elif kind == "closed":
+            op["drop_last"] = draw(st.sampled_from([True, False, "default"]))
+        elif kind.startswith("extend"):
+            op["direction"] = draw(st.sampled_from(DIRECTIONS))
+            left, right = _sides(op["direction"])
+            m += n * (int(left) + int(right))
+        steps.append(op)
+    d.update(n=n, steps=steps)
+    return d
+
+
+def _state(ia, model, after):
+    """the object's array must equal the model after every step"""
+    now = _vec(ia.array, "IntervalArray.array", len(model))
+    for k, (g, w) in enumerate(zip(now, model)):
+        if not _eq(g, w):
+            raise Violation(f"after {after}: IntervalArray.array[{k}] is {g!r}, the model holds {w!r}",
+                            detail=dict(got=_clip(now), want=_clip(model)))
+
+
+def history_body(ctx, case):
+    a, n = case["a"], case["n"]
+    ia = IntervalArray(_arg(a, case["int"], case["as_list"]), n)
+    model = list(a)
+    done = []                    # operations so far (for messages and classes)
+    cls = set()
+    changed, seen, pending = set(), set(), dict(grid=set(), count=set())
+    nontrivial = False
+    for step, op in enumerate(case["steps"]):
+        kind = op["op"]
+        m = len(model)
+        rows = -(-m // n)
+        tag = f"step {step} {kind} (history: {' '.join(done) or '-'})"
+        if kind in ("get-pair", "get-flat"):
+            flat = op["i"] * n + op["j"] if kind == "get-pair" else op["k"]
+            got = _scalar(ia[op["i"], op["j"]] if kind == "get-pair" else ia[op["k"]], tag)
+            if not _eq(got, model[flat]):
+                raise Violation(f"{tag}: read {got!r}, flat index {flat} holds {model[flat]!r}",
+                                detail=dict(model=_clip(model)))
+        elif kind in ("set-pair", "set-flat"):
+            flat = op["i"] * n + op["j"] if kind == "set-pair" else op["k"]
+            if kind == "set-pair":
+                ia[op["i"], op["j"]] = op["value"]
+            else:
+                ia[op["k"]] = op["value"]
+            model[flat] = op["value"]
+        elif kind == "to_2d":
+            _check_mat(tag, _mat(ia.to_2d_array(), tag, (rows, n)), o_rows(model, n))
+        elif kind == "closed":
+            drop = op["drop_last"]
+            kw = {} if drop == "default" else dict(drop_last=drop)
+            dropped = drop is not False
+            got = _mat(ia.to_2d_array_closed_intervals(**kw), tag, (rows - 1 if dropped else rows, n + 1))
+            _check_mat(tag, got, o_closed_rows(model, n, dropped))
+        elif kind == "len":
+            if len(ia) != m:
+                raise Violation(f"{tag}: len() = {len(ia)}, the object holds {m} elements")
+        elif kind == "nfull":
+            full = ia.nr_of_full_intervals()
+            if isinstance(full, bool) or not isinstance(full, (int, np.integer)) or int(full) != m // n:
+                raise Violation(f"{tag}: nr_of_full_intervals() = {full!r} for {m} elements, n={n}")
+        elif kind == "iter":
+            got = [v.item() if isinstance(v, np.generic) else v for v in iter(ia)]
+            if len(got) != m or not all(_eq(g, w) for g, w in zip(got, model)):
+                raise Violation(f"{tag}: iteration yields {_clip(got)}, expected {_clip(model)}")
+        elif kind == "array":
+            pass                                           # compared below, as after every step
+        elif kind == "extend_constant":
+            ia.extend_constant(**_kw_dir(op["direction"]))
+            model = [w for w, _ in o_extend_constant(model, n, op["direction"])]
+        elif kind == "extend_linspace":
+            ia.extend_linspace(**_kw_dir(op["direction"]))
+            want = o_extend_linspace(model, n, op["direction"])
+            got = _vec(ia.array, tag, len(want))
+            _compare(tag, got, want)
+            # computed elements are adopted from the object once they are inside the tolerance; copies stay exact
+            model = [g if tol is not None else w for g, (w, tol) in zip(got, want)]
+        else:
+            raise RuntimeError(f"unknown op {kind}")
+        _state(ia, model, tag)
+        # classes: an observer called again after the object changed (what a stale cache would get wrong)
+        family = "grid" if kind in ("to_2d", "closed") else "count" if kind in ("len", "nfull") else None
+        change = "write" if kind.startswith("set") else "extend" if kind.startswith("extend") else None
+        if kind in _VIEWS and changed:
+            nontrivial = True
+            cls.update(f"{c}-then-view" for c in changed)
+        if family:
+            cls.update(f"{family},{c},{family}" for c in pending[family])
+            seen.add(family)
+            pending[family] = set()
+        if change:
+            changed.add(change)
+            for f in seen:
+                pending[f].add(change)
+        cls.add("op:" + kind)
+        done.append(kind)
+    cls |= {"n=1" if n == 1 else "n=2" if n == 2 else "n=3..8" if n <= 8 else "n=9..16",
+            "int64" if case["int"] else "float64", "list" if case["as_list"] else "ndarray",
+            "len%n!=0" if len(a) % n else "len%n==0"}
+    ctx.record(case, cls, nontrivial)
+
+
 SUBCHECKS = [
     Sub("oversample_linspace", "hyp", oversample_linspace_body, strategy=oversample_case, quick=400, thorough=8000,
         clause="n-fold oversampling keeps every original element at every n-th position, fills the gaps linearly"),
@@ -767,4 +923,7 @@ SUBCHECKS = [
     Sub("interval_methods", "hyp", methods_body, strategy=methods_case, quick=300, thorough=6000,
         clause="the same extension / oversampling contracts when reached through IntervalArray (one interval per "
                "side; oversampled view keeps original row starts)"),
+    Sub("interval_history", "hyp", history_body, strategy=history_case, quick=400, thorough=8000,
+        clause="reads, writes, 2-D views, length, full-interval count, iteration and extensions interleaved on ONE "
+               "object agree with a plain list model after every step (a view taken after a write shows the write)"),
 ]
